@@ -24,6 +24,14 @@ const b64Alphabet = "ABCDEFGHIJKLMNOPQRSTUVWXYZabcdefghijklmnopqrstuvwxyz0123456
 
 func GenB64(t *rapid.T) B64Case {
 	raw := rapid.SliceOfN(rapid.Byte(), 0, 200).Draw(t, "raw")
+	big := rapid.IntRange(0, 39).Draw(t, "big?") == 39
+	if big { // texts well beyond 1024 characters: 700-5000 bytes, half of them up to 1600
+		n := rapid.IntRange(700, 1600).Draw(t, "bign")
+		if rapid.Bool().Draw(t, "bigger") {
+			n = rapid.IntRange(1600, 5000).Draw(t, "biggern")
+		}
+		raw = rapid.SliceOfN(rapid.Byte(), n, n).Draw(t, "bigraw")
+	}
 	// encode by hand (no padding), then disturb
 	var txt []byte
 	for i := 0; i < len(raw); i += 3 {
@@ -40,7 +48,35 @@ func GenB64(t *rapid.T) B64Case {
 			txt = append(txt, b64Alphabet[(v>>(18-6*k))&63])
 		}
 	}
-	for i, k := 0, rapid.SampledFrom([]int{0, 0, 1, 2, 5, 20}).Draw(t, "edits"); i < k; i++ {
+	if big { // as it is, wrapped the MIME way (76, CRLF), the PEM way (64, LF), or with a few single line breaks
+		width, brk := 0, "\r\n"
+		switch rapid.IntRange(0, 3).Draw(t, "bigwrap") {
+		case 1:
+			width = 76
+		case 2:
+			width, brk = 64, "\n"
+		case 3:
+			for i, k := 0, rapid.IntRange(1, 3).Draw(t, "bigbreaks"); i < k; i++ {
+				pos := rapid.IntRange(0, len(txt)).Draw(t, "bigpos")
+				txt = append(txt[:pos:pos], append([]byte("\n"), txt[pos:]...)...)
+			}
+		}
+		if width > 0 {
+			var out []byte
+			for j, ch := range txt {
+				if j > 0 && j%width == 0 {
+					out = append(out, brk...)
+				}
+				out = append(out, ch)
+			}
+			txt = out
+		}
+	}
+	edits := []int{0, 0, 1, 2, 5, 20}
+	if big {
+		edits = []int{0, 0, 0, 1, 2}
+	}
+	for i, k := 0, rapid.SampledFrom(edits).Draw(t, "edits"); i < k; i++ {
 		pos := rapid.IntRange(0, len(txt)).Draw(t, "pos")
 		var ins []byte
 		switch rapid.IntRange(0, 9).Draw(t, "edit") {
@@ -113,7 +149,7 @@ func b64Denotes(text []byte) ([]byte, bool) {
 
 func ExecB64(c B64Case) *vkit.Result {
 	res := &vkit.Result{}
-	if len(c.Text) > 4096 {
+	if len(c.Text) > 1<<14 {
 		res.Skip("oversized")
 		return res
 	}
@@ -126,6 +162,9 @@ func ExecB64(c B64Case) *vkit.Result {
 	got := tex.Base64Bytes{7, 7}
 	err := got.Scan(src)
 	what := fmt.Sprintf("Base64Bytes.Scan(%s %q)", kind, c.Text)
+	if len(c.Text) > 300 {
+		what = fmt.Sprintf("Base64Bytes.Scan(%s of %d characters: %q ... %q)", kind, len(c.Text), c.Text[:80], c.Text[len(c.Text)-40:])
+	}
 	switch {
 	case err != nil:
 		res.Class("rejected")
@@ -142,6 +181,32 @@ func ExecB64(c B64Case) *vkit.Result {
 	if c.AsBytes && !bytes.Equal(src.([]byte), c.Text) {
 		return res.Failf("scan/Base64Bytes", "%s changed its source", what)
 	}
+	if err == nil {
+		// the scanned value is the caller's: it stays what it is when the driver reuses the source buffer (database/sql:
+		// a Scanner that keeps a []byte source has to copy it) and when another text is scanned into another target
+		if c.AsBytes {
+			b := src.([]byte)
+			for i := range b {
+				b[i] = 'A'
+			}
+		}
+		other := make([]byte, 0, len(c.Text)+4)
+		for _, ch := range c.Text {
+			if i := bytes.IndexByte([]byte(b64Alphabet), ch); i >= 0 {
+				other = append(other, b64Alphabet[63-i])
+			}
+		}
+		other = append(other, "AAAA"...)
+		var o tex.Base64Bytes
+		_ = o.Scan(string(other))
+		_ = o.Scan(other)
+		if !bytes.Equal(got, want) {
+			return res.Failf("scan/Base64Bytes/retained", "%s gave %v; after the source buffer was overwritten and another text was scanned into another target the same value reads %v", what, want, []byte(got))
+		}
+	}
+	if len(c.Text) > 1024 {
+		res.Class("text-over-1024-characters")
+	}
 	if bytes.ContainsAny(c.Text, "\r\n") {
 		res.Class("with-line-breaks")
 		res.NonTrivial = true
@@ -154,7 +219,7 @@ func ExecB64(c B64Case) *vkit.Result {
 
 var PartB64 = &vkit.Part[B64Case]{
 	Property: Property, Name: "base64-scan",
-	Rule:  "rapid: the unpadded standard-alphabet text of 0-200 random bytes, disturbed by 0-20 edits (LF, CRLF, '=', junk characters, an extra alphabet character, a dropped character, MIME line wrapping every 76 characters) and optionally trailing line breaks, handed to Base64Bytes.Scan as string or []byte on a target preset to a sentinel. Oracle: an independent reading of the raw standard encoding (CR/LF skipped, groups of 4/3/2 characters, a single left-over character / padding / foreign characters denote nothing): nil error obliges Scan to exactly the denoted bytes; a failing Scan leaves the target alone. Non-trivial: the text contains line breaks or denotes nothing; distinct = distinct case JSON",
+	Rule:  "rapid: the unpadded standard-alphabet text of 0-200 random bytes (a few per cent of the cases: 700-5000 bytes, as it is, MIME-wrapped at 76 with CRLF, PEM-wrapped at 64 with LF, or with 1-3 single line breaks), disturbed by 0-20 edits (LF, CRLF, '=', junk characters, an extra alphabet character, a dropped character, MIME line wrapping every 76 characters) and optionally trailing line breaks, handed to Base64Bytes.Scan as string or []byte on a target preset to a sentinel. Oracle: an independent reading of the raw standard encoding (CR/LF skipped, groups of 4/3/2 characters, a single left-over character / padding / foreign characters denote nothing): nil error obliges Scan to exactly the denoted bytes; a failing Scan leaves the target alone; the scanned value stays the same when the []byte source is overwritten afterwards and another text is scanned into another target. Non-trivial: the text contains line breaks or denotes nothing; distinct = distinct case JSON",
 	Quick: 20000, Thorough: 60000,
 	Gen: GenB64, Exec: ExecB64,
 }
